@@ -32,6 +32,11 @@ pub struct Plan {
     pub read_io: IoPlan,
     /// read the texts through real files (`read_file`) instead of the reader hook
     pub via_file: bool,
+    /// non-zero: the canonical text of the first diff is also read with ONE line indented one tab too deep (which line
+    /// is drawn from this seed). Such a text is not well-formed, so a refusal is fine; but an `Ok` must still carry
+    /// everything the other lines say (never a silently shortened diff: missed seeded change C04-12)
+    #[serde(default)]
+    pub over_indent: u64,
     /// deliver the diffs as in-memory values (what `MappingsDiff::diff` produced, or a perturbation of it) instead of text;
     /// only here does a no-op edit `Edit(a,a)` keep its stated old value
     #[serde(default)]
@@ -118,7 +123,13 @@ impl Engine for C04 {
             strip_param_src(&mut next);
             states.push(next);
         }
-        let mut p = Plan { states, start: 0, delivery: (1..=k).collect(), perturb: vec![], text_style: if w.chance(50) { 0 } else { w.next() | 1 }, read_io: IoPlan::plain(), via_file: s.chance(10), in_memory: false };
+        let mut p = Plan { states, start: 0, delivery: (1..=k).collect(), perturb: vec![], text_style: if w.chance(50) { 0 } else { w.next() | 1 }, read_io: IoPlan::plain(), via_file: s.chance(10), in_memory: false, over_indent: 0 };
+        {
+            let mut oi = rng.split("over-indent");
+            if oi.chance(12) {
+                p.over_indent = oi.next() | 1;
+            }
+        }
         if s.chance(25) {
             p.in_memory = true;
             p.via_file = false;
@@ -257,6 +268,55 @@ impl Engine for C04 {
                             let r = from_quill(&r).expect("projects");
                             if let Some((path, det)) = b.diff_path(&r) {
                                 out.push(Violation::new("T0", "semantic-mismatch", format!("apply(diff(A,B),A).{path}"), det));
+                            }
+                        }
+                    }
+                }
+            }
+        }
+
+        // ---------------- one line of the first diff's text one tab too deep
+        if p.over_indent != 0 && k >= 1 {
+            let d1 = ref_diff(&p.states[0], &p.states[1]).expect("generated states are diffable");
+            let text = write_tinydiff(&d1, None).into_bytes();
+            let lines: Vec<&[u8]> = text.split_inclusive(|b| *b == b'\n').collect();
+            let depth = |l: &[u8]| l.iter().take_while(|b| **b == b'\t').count();
+            if lines.len() >= 2 {
+                let start = 1 + (p.over_indent % (lines.len() as u64 - 1)) as usize;
+                let at = (start..lines.len()).chain(1..start).find(|&i| i == 1 || depth(lines[i - 1]) < depth(lines[i])).unwrap_or(1);
+                let d_at = depth(lines[at]);
+                // one more tab is too deep only for a first child (the line before is its parent) and for the first line
+                // after the header; anywhere else it would re-parent the line, which is a different, well-formed text
+                if at == 1 || depth(lines[at - 1]) < d_at {
+                    let mut damaged = vec![];
+                    let mut rest = vec![];
+                    let mut skipping = false;
+                    for (i, l) in lines.iter().enumerate() {
+                        if i == at {
+                            damaged.push(b'\t');
+                            damaged.extend_from_slice(l);
+                            skipping = true;
+                            continue;
+                        }
+                        damaged.extend_from_slice(l);
+                        if skipping && depth(l) > d_at {
+                            continue; // the subtree of the odd line
+                        }
+                        skipping = false;
+                        rest.extend_from_slice(l);
+                    }
+                    st.probe("over_indented_line");
+                    st.tier("T2");
+                    st.nontrivial = true;
+                    st.sched.u64(0x1d7 ^ at as u64);
+                    match no_panic(|| quill::tiny_v2_diff::verif_read(&mut &damaged[..])) {
+                        Err(pm) => out.push(Violation::new("T2", "panic", format!("read-diff:{}", panic_path(&pm)), pm)),
+                        Ok(Err(_)) => st.probe("over_indented_line.refused"),
+                        Ok(Ok(real)) => {
+                            if let (Ok(got), Ok(want)) = (from_quill_diff(&real), read_tinydiff(&rest)) {
+                                if let Some(m) = want.missing_in(&got) {
+                                    out.push(Violation::new("T2", "reader-ok-with-lost-entries", "read-diff.over-indented-line", format!("line {} is one tab too deep; the read returned Ok without what the OTHER lines say: {m}", at + 1)));
+                                }
                             }
                         }
                     }
